@@ -39,6 +39,11 @@ def run(ctx):
         r5_clock_table(ctx, facts, cfg)
         options_read_only(ctx, facts, cfg)
         r7_tsc_slots(ctx, facts, cfg)
+        # after a pass every thread with an eligible statement has one buffered: the helper that reads an unbounded queue hands back the
+        # read position also on the pass in which the consumer switches nodes (= C20.R4)
+        from rules import c20 as _c20
+        from rules.c09 import Renamed as _Ren8
+        _c20.r4(_Ren8(ctx, "C20.R4", "C05.R8"), facts, cfg)
         # the set of threads whose oldest statements are compared is every thread that logs (registration / cache reload, = C20.R5)
         from rules import c20
         from rules.c09 import Renamed
